@@ -10,6 +10,8 @@ godebug (
 require (
 	github.com/anishathalye/porcupine v1.3.0
 	github.com/evolbioinfo/gotree v0.0.0
+	github.com/spf13/cobra v1.5.0
+	github.com/spf13/pflag v1.0.5
 	pgregory.net/rapid v1.3.0
 	verifhook v0.0.0
 )
@@ -34,8 +36,6 @@ require (
 	github.com/llgcode/draw2d v0.0.0-20210313082411-577c1ead272a // indirect
 	github.com/mattn/go-colorable v0.1.8 // indirect
 	github.com/mattn/go-isatty v0.0.12 // indirect
-	github.com/spf13/cobra v1.5.0 // indirect
-	github.com/spf13/pflag v1.0.5 // indirect
 	golang.org/x/image v0.11.0 // indirect
 	golang.org/x/sys v0.11.0 // indirect
 	golang.org/x/text v0.12.0 // indirect
